@@ -273,6 +273,8 @@ pub fn main(args: Args) -> i32 {
         "-12345", "-1.5", "1e100", "-0.0", "170141183460469231731687303715884105727", "-9223372036854775808", "x - 9", "-x", "true", "none", "[1, -2, 'a', [-3.5]]", "{'k': -1, 'j': [-2]}", "(1, -2)",
         "'\u{e9}\u{2603}'", "'%5d'|format(-42)", "'%-8s|'|format('ab')", "'%05.1f'|format(-2.5)", "-7|string", "range(-2, 1)|list", "namespace(a=-1)", "-5|tojson", "[-1, {'a': -2.5}]|tojson", "[-1]|tojson(indent=2)",
         "'a\nb'|indent(2)", "-2 ** 3", "xs|map('string')|join('-')", "(-1, 'x')|list", "m", "-1|float", "'<-1>'|e", "['<', -1]", "1 - 2 ~ '' ~ -3",
+        // strings whose quoted form inside a container needs escapes between literal runs
+        "['ab\\x01cd', 'x']", "{'k\\x02z': 'v\\x7fw'}", "['a\\nb\\tc', \"q'q\", 'r\"r', 'back\\\\slash']", "('\u{e9}\\u0085x', ['\\x1b[0m'])", "'ab\\x01cd'", "['ab\\x01cd']|string", "['ab\\x01cd']|pprint",
     ];
     for (zi, e) in zoo.iter().enumerate() {
         for (ext, label) in [("", "zoo"), (".html", "zoo_html"), (".json", "zoo_json")] {
@@ -309,7 +311,7 @@ pub fn main(args: Args) -> i32 {
             level: "fault_enumeration",
             tier: args.tier,
             seed: args.seed,
-            rule: format!("programs: complete depth-1 space of G (with integer, small-string, escaped and safe-string emits appended; half of them again under an .html name; a third with a run-time error appended), every {}th depth-2 program, 5 multi-template families incl. rendering a single block through State::render_block_to_write, and 32 emit forms (negative and huge integers, floats, booleans, none, nested list / map / tuple displays, multi-byte text, printf-style padding, tojson with and without indent, namespace, joined maps, escaped text) under plain, .html and .json names; context #1. For each program: healthy sink (bytes == plain render) gives the write-call list W1..WN; then EVERY k in 1..=N x 3 error kinds: bytes received == W1..W(k-1), no write call after the failing one, Err of kind WriteFailure whose source() is the injected io::Error (kind and marker text); a zero-length write at every k must yield WriteFailure/WriteZero; short-write sinks (1,2,3 bytes per call) must deliver identical bytes. distinct non-trivial = programs with at least one write", stride2),
+            rule: format!("programs: complete depth-1 space of G (with integer, small-string, escaped and safe-string emits appended; half of them again under an .html name; a third with a run-time error appended), every {}th depth-2 program, 5 multi-template families incl. rendering a single block through State::render_block_to_write, and 39 emit forms (negative and huge integers, floats, booleans, none, nested list / map / tuple displays, multi-byte text, printf-style padding, tojson with and without indent, namespace, joined maps, escaped text, strings with control characters, quotes and backslashes inside containers) under plain, .html and .json names; context #1. For each program: healthy sink (bytes == plain render) gives the write-call list W1..WN; then EVERY k in 1..=N x 3 error kinds: bytes received == W1..W(k-1), no write call after the failing one, Err of kind WriteFailure whose source() is the injected io::Error (kind and marker text); a zero-length write at every k must yield WriteFailure/WriteZero; short-write sinks (1,2,3 bytes per call) must deliver identical bytes. distinct non-trivial = programs with at least one write", stride2),
             exhaustive: true,
             bound: json!({"error_kinds": ["BrokenPipe", "Other", "WouldBlock"], "short_write_sizes": [1, 2, 3]}),
             assumptions: vec!["io::ErrorKind::Interrupted is not injected (write_all retries it by contract)".into()],
